@@ -1,4 +1,6 @@
 import Tapeverif.Lemmas.Term
+import Tapeverif.Lemmas.NoGuard
+import Tapeverif.Lemmas.VMRun
 import Tapeverif.Model.Auth
 /-!
 # C07 — every run ends
@@ -14,9 +16,12 @@ instructions raise the call counter and refuse at `callstack_limit`, block bodie
 substrings of their tape, a loop runs at most `callstack_limit` iterations, and every read
 consumes tape.
 
-Not proved here: that the model's own substring guard (`Err.guard`, which has no counterpart
-in the implementation) is unreachable for the 92 real instructions — the theorem allows the run
-to end there; the correspondence check would show it as a disagreement.
+For the real instruction table (`script_outcome`, `auth_outcome`): the outcome is a normal end or a
+Python-visible exception — never one of the model's own markers (out of fuel, the ghost assertion
+of C01, the substring guard that keeps the kernel terminating for arbitrary tables, the
+uncatchable failure used to state soft-fork safety). `Lemmas/NoGuard.lean` shows by a syntactic
+invariant of all 92 instructions (+ NOP) that block bodies are always bytes just read from the
+instruction's own tape, so the guard is dead code for them.
 -/
 namespace TV.C07
 
@@ -67,6 +72,75 @@ theorem auth_terminates (scripts : List Bytes) (cache : List (CKey × CVal)) :
     rw [h n (Nat.le_refl _)]; exact hf
   · unfold runAuth runAuthRes
     rw [h m hm, h n (Nat.le_refl _)]
+
+/-! ### the real table: only normal ends and Python-visible exceptions -/
+
+/-- the outcome is a normal end or an exception a Python caller would see -/
+def Res.visible : Res → Prop
+  | .ok _ _ => True
+  | .err (.user _) _ => True
+  | .err _ _ => False
+
+theorem bounded_table (H : Hashes) (C : Curve) (cfg : Cfg) (c : UInt8) (B0 : Nat) : Bounded B0 (instrTable H C cfg c) :=
+  bounded_instr H C cfg c.toNat .done (by simp [Bounded])
+
+theorem visible_of {r : Res} (hf : r.isFuel = false) (hg : r.isGhost = false) (hn : NG fr r) : Res.visible r := by
+  cases r with
+  | ok f s => trivial
+  | err e s =>
+    cases e with
+    | user k => trivial
+    | fuel => cases hf
+    | ghost => cases hg
+    | guard => exact absurd rfl hn.1
+    | abort => exact absurd rfl hn.2
+
+/-- **C07.7, real table: every script run ends, normally or in a Python-visible exception.** -/
+theorem script_outcome (H : Hashes) (C : Curve) (cfg : Cfg) (script : Bytes) (cache : List (CKey × CVal)) :
+    ∃ n r, Res.visible r ∧ ∀ m, n ≤ m → runScript (instrTable H C cfg) cfg.lim m script cache = r := by
+  obtain ⟨n, r, hf, h⟩ := script_terminates (instrTable H C cfg) cfg.lim script cache
+  refine ⟨n, r, ?_, h⟩
+  have hp := post_shared cfg.lim (runTape_post (instrTable H C cfg) cfg.lim n (topFrame script 0) (initShared cache) (initShared_inv cfg.lim cache) rfl)
+  have hn := (noguard_main (instrTable H C cfg) cfg.lim (bounded_table H C cfg) n).2.2 (topFrame script 0) (initShared cache)
+    (Nat.le_refl _) (Nat.lt_succ_self _)
+  have hr : runTape (instrTable H C cfg) cfg.lim n (topFrame script 0) (initShared cache) = r := h n (Nat.le_refl _)
+  rw [hr] at hp hn
+  exact visible_of hf hp.2.2 hn
+
+theorem runAuthRest_ng (H : Hashes) (C : Curve) (cfg : Cfg) (fuel : Nat) : ∀ (scripts : List Bytes) (count : Nat) (sh : Shared),
+    match runAuthRest (instrTable H C cfg) cfg.lim fuel scripts count sh with
+    | .ok _ _ => True
+    | .err e _ => e ≠ .guard ∧ e ≠ .abort := by
+  intro scripts
+  induction scripts with
+  | nil => intro count sh; simp [runAuthRest]
+  | cons s rest ih =>
+    intro count sh
+    simp only [runAuthRest]
+    have hn := (noguard_main (instrTable H C cfg) cfg.lim (bounded_table H C cfg) fuel).2.2 (topFrame s count) { sh with returned := false }
+      (Nat.le_refl _) (Nat.lt_succ_self _)
+    cases hr : runTape (instrTable H C cfg) cfg.lim fuel (topFrame s count) { sh with returned := false } with
+    | err e sh' => rw [hr] at hn; exact hn
+    | ok fr sh' => exact ih fr.count sh'
+
+/-- **C07.7, real table: every authorization ends with a verdict computed from a normal end or a
+    Python-visible exception.** -/
+theorem auth_outcome (H : Hashes) (C : Curve) (cfg : Cfg) (scripts : List Bytes) (cache : List (CKey × CVal)) :
+    ∃ n r, Res.visible r ∧ ∀ m, n ≤ m → runAuthRes (instrTable H C cfg) cfg.lim m scripts cache = r := by
+  obtain ⟨n, r, hf, h⟩ := runAuthRest_terminates (instrTable H C cfg) cfg.lim scripts 0 (initShared cache) (wf_initShared cache)
+  refine ⟨n, r, ?_, fun m hm => h m hm⟩
+  have hp := runAuthRest_post (instrTable H C cfg) cfg.lim n scripts 0 (initShared cache) (initShared_inv cfg.lim cache)
+  have hn := runAuthRest_ng H C cfg n scripts 0 (initShared cache)
+  rw [h n (Nat.le_refl _)] at hp hn
+  cases r with
+  | ok f s => trivial
+  | err e s =>
+    cases e with
+    | user k => trivial
+    | fuel => cases hf
+    | ghost => have := hp.2.2; cases this
+    | guard => exact absurd rfl hn.1
+    | abort => exact absurd rfl hn.2
 
 def endsInSee : Res → Bool
   | .err (.user .see) _ => true
